@@ -372,6 +372,29 @@ func (e *env) evalAggregate(f *FuncCall, name string, spec aggSpec) (any, error)
 		if (sawNull && !fac.neverNull) || orNull {
 			return nil, nil
 		}
+		// statically Nullable value argument (e.g. toFloat64OrNull(..)): the
+		// Null adapter yields NULL over zero admitted rows
+		if !fac.neverNull && !hasMerge && e.rel != nil {
+			vals := f.Args
+			plain := true
+			for _, c := range combs {
+				switch c {
+				case "If":
+					if len(vals) > 0 {
+						vals = vals[:len(vals)-1]
+					}
+				case "Array":
+					plain = false
+				}
+			}
+			if plain {
+				for _, a := range vals {
+					if e.b.staticNullable(e.rel, a, nil) {
+						return nil, nil
+					}
+				}
+			}
+		}
 	}
 	return agg.result(hint)
 }
